@@ -84,7 +84,7 @@ func anys[T any](xs []T, f func(T) any) []any {
 func (in *Instance) QueryView(limit uint64) (q M) {
 	t := in.T
 	ctx := context.Context(in.ctx)
-	k := in.K
+	k := routed{in} // through the gRPC query router
 	q = M{"panic": false}
 	defer func() {
 		if r := recover(); r != nil {
